@@ -136,3 +136,52 @@ def rewrite(obj, alias):
     if isinstance(obj, dict):
         return {k: rewrite(v, alias) for k, v in obj.items()}
     return obj
+
+
+def collect_structs(crates):
+    """local structs: path -> [[field name, field type], ..]"""
+    out = {}
+    for cname, raw in crates.items():
+        if cname not in CRATES:
+            continue
+        for a in raw.get("adts", []):
+            if a.get("local") and not a.get("is_enum") and a.get("variants"):
+                out.setdefault(a["path"], [[f.get("n"), f.get("t")] for f in a["variants"][0].get("fields", [])])
+    return out
+
+
+def field_renames(crates):
+    """fields of a struct that were only renamed (same struct, same number of fields, same types in the same order):
+    -> {(index, new name, type): reference name}, notes"""
+    if not os.path.exists(ANCHORS):
+        return {}, []
+    ref = json.load(open(ANCHORS)).get("structs") or {}
+    cur = collect_structs(crates)
+    mapping = {}
+    notes = []
+    for path, fields in cur.items():
+        rf = ref.get(path)
+        if not rf or len(rf) != len(fields) or [f[1] for f in rf] != [f[1] for f in fields]:
+            continue
+        for idx, (new, old) in enumerate(zip(fields, rf)):
+            if new[0] != old[0]:
+                mapping[(idx, new[0], new[1])] = old[0]
+                notes.append("field %s::%s is taken to be the reference tree's %s under a new name" % (path, new[0], old[0]))
+    return mapping, notes
+
+
+def rewrite_fields(obj, mapping):
+    if isinstance(obj, dict):
+        if "f" in obj and "n" in obj and "t" in obj and (obj["f"], obj["n"], obj["t"]) in mapping:
+            o = dict(obj)
+            o["n"] = mapping[(obj["f"], obj["n"], obj["t"])]
+            return o
+        if "n" in obj and "t" in obj and "f" not in obj and len(obj) == 2:
+            # a struct's field list
+            for (idx, new, ty), old in mapping.items():
+                if obj["n"] == new and obj["t"] == ty:
+                    return {"n": old, "t": ty}
+        return {k: rewrite_fields(v, mapping) for k, v in obj.items()}
+    if isinstance(obj, list):
+        return [rewrite_fields(x, mapping) for x in obj]
+    return obj
